@@ -28,6 +28,7 @@ RULE = (
     "task.cancel, pause, check}; plus all scripts of length <= 3 in which the victim requests its own cancellation and then enters / runs / leaves nested blocks (failing or not, spawning or not) without catching CancelledError; non-trivial = the cancellation was delivered while the victim "
     "was inside a scope's enter, body or exit"
 )
+RULE += ' Rounds 10-11: MANY disposables (4-9 (17)) one or two of which suspend, cancellation while the scope waits for them; spawn from other callable forms.'
 ASSUMPTIONS = [
     "harness code re-raises CancelledError (user code does not catch it)",
     "spawned tasks and disposables do not swallow cancellation",
